@@ -352,4 +352,4 @@ MANIFEST = dict(
                "(exercised by the correspondence, not modelled). Numerical agreement is at exact sampled points.",
     technique="Lean 4 proof (induction over variable lists with an offset invariant) + two-sided model/implementation correspondence + differential oracle",
 )
-READY = False
+READY = True
